@@ -165,12 +165,15 @@ bool ode_sep(const ref::Ellipsoid& E, const LineRef& X, const LineRef& Y, double
 Verdict check_int(const J& r) {
   Verdict v; double a = r.getd("a"), f = r.getd("f");
   LineRef X{r.getd("latX"), r.getd("lonX"), r.getd("aziX")}, Y{r.getd("latY"), r.getd("lonY"), r.getd("aziY")};
-  if (!(a > 0) || !std::isfinite(a) || !(std::fabs(f) <= 0.01) || !(std::fabs(X.lat) < 90) || !(std::fabs(Y.lat) < 90) || !(std::fabs(X.lon) < 1e5) || !(std::fabs(Y.lon) < 1e5) || !(std::fabs(X.azi) < 1e5) || !(std::fabs(Y.azi) < 1e5)) { v.skip("outside documented domain"); return v; }
+  if (!(a > 0) || !std::isfinite(a) || !(std::fabs(f) <= 0.1) || !(std::fabs(X.lat) < 90) || !(std::fabs(Y.lat) < 90) || !(std::fabs(X.lon) < 1e5) || !(std::fabs(Y.lon) < 1e5) || !(std::fabs(X.azi) < 1e5) || !(std::fabs(Y.azi) < 1e5)) { v.skip("outside documented domain"); return v; }
   double px = r.getd("p0x"), py = r.getd("p0y"), maxdist = r.getd("maxdist");
   ref::Ellipsoid E(a, f);
   L circ = 2 * ref::PI_L * E.a;
   if (!(std::fabs(px) <= 2 * (double)circ && std::fabs(py) <= 2 * (double)circ && maxdist >= 0 && maxdist <= 2.2 * (double)circ)) { v.skip("outside generated range"); return v; }
-  Geodesic g(a, f); Intersect in(g);
+  Geodesic g(a, f);
+  std::unique_ptr<Intersect> inp;
+  try { inp.reset(new Intersect(g)); } catch (const GeographicErr&) { v.skip("ellipsoid rejected by the Intersect constructor"); return v; }
+  Intersect& in = *inp;
   Intersect::Point p0(px, py);
   int c = 99; Intersect::Point q = in.Closest(X.lat, X.lon, X.azi, Y.lat, Y.lon, Y.azi, p0, &c);
   // documented accuracy of the intersection itself: the lines are followed with the geodesic accuracy
@@ -200,6 +203,28 @@ Verdict check_int(const J& r) {
       }
     }
     v.tag("minimality-checked");
+  }
+  // minimality / completeness against witnesses: intersections found by Closest from a grid of other start offsets
+  // (each witness is validated as a genuine intersection with the ODE reference before it counts)
+  std::vector<Intersect::Point> witnesses;
+  if (c == 0 && sang > 0.05L) {
+    L half = ref::PI_L * (E.a + E.b) / 2; L d0 = fabsl((L)q.first - px) + fabsl((L)q.second - py);
+    int gridn = (int)r.geti("wgrid");
+    for (int i = -gridn; i <= gridn; ++i) for (int j = -gridn; j <= gridn; ++j) {
+      if (i == 0 && j == 0) continue;
+      Intersect::Point w = in.Closest(X.lat, X.lon, X.azi, Y.lat, Y.lon, Y.azi, Intersect::Point((double)(px + i * 0.45L * half), (double)(py + j * 0.45L * half)));
+      if (!std::isfinite(w.first) || !std::isfinite(w.second)) continue;
+      bool dup = false; for (auto& u : witnesses) if (std::fabs(u.first - w.first) + std::fabs(u.second - w.second) < 1.0) dup = true;
+      if (dup) continue;
+      witnesses.push_back(w);
+      L dw = fabsl((L)w.first - px) + fabsl((L)w.second - py);
+      if (dw + 1 < d0) {
+        L s2, c2; L tw = 2 * doc_tol(0, a, f) * (2 + (fabsl((L)w.first) + fabsl((L)w.second)) / (circ / 4));
+        if (ode_sep(E, X, Y, w.first, w.second, s2, c2, 0.01L * tw) && s2 <= 8 * tw + 1e-9L)
+          v.le(d0 - dw, 1.0L, "Closest is farther from p0 than a valid intersection found from another start offset [m]");
+      }
+    }
+    v.tag("witness-checked");
   }
   // Next: an intersection other than the one at the origin of coincident starts
   {
@@ -236,6 +261,21 @@ Verdict check_int(const J& r) {
     }
     L dq = fabsl((L)q.first - px) + fabsl((L)q.second - py);
     if (c == 0 && sang > 0.05L && dq < maxdist - 1) v.that(hasq, "All: the Closest intersection (inside maxdist) is missing");
+    // completeness: every validated witness clearly inside maxdist must be present
+    for (auto& w : witnesses) {
+      L dw = fabsl((L)w.first - px) + fabsl((L)w.second - py);
+      if (!(dw < maxdist - 10)) continue;
+      bool present = false; for (auto& u : all) if (std::fabs(u.first - w.first) + std::fabs(u.second - w.second) < 1.0) present = true;
+      if (!present) {
+        L s2, c2; L tw = 2 * doc_tol(0, a, f) * (2 + (fabsl((L)w.first) + fabsl((L)w.second)) / (circ / 4));
+        if (ode_sep(E, X, Y, w.first, w.second, s2, c2, 0.01L * tw) && s2 <= 8 * tw + 1e-9L) {
+          // a shallow crossing is located only to (position accuracy)/sin(angle): widen the match radius accordingly
+          L sw = sqrtl(std::max<L>(0, 1 - c2 * c2)); L rad = 1 + 100 * (8 * tw + 1e-9L) / std::max(sw, 1e-12L);
+          bool near = false; for (auto& u : all) if (fabsl((L)u.first - w.first) + fabsl((L)u.second - w.second) < rad) near = true;
+          if (sw > 1e-3L) v.that(near, "All: a valid intersection inside maxdist (found from another start offset) is missing");
+        }
+      }
+    }
     v.tag("all-checked");
   }
   // Segment: segmode per its definition
@@ -354,8 +394,8 @@ J gen_nn() {
 
 J gen_int() {
   using namespace vf; J r = J::obj();
-  gg::Ell e = gg::ellipsoid(gg::SERIES_FULL); if (std::fabs(e.f) > 0.01) e.f *= 0.5; if (g::coin(3, 4)) e.a = gg::A_WGS84;
-  r["a"] = J::num(e.a); r["f"] = J::num(e.f);
+  gg::Ell e = gg::ellipsoid(g::coin(1, 3) ? gg::SERIES_WIDE : gg::SERIES_FULL); if (std::fabs(e.f) > 0.1) e.f *= 0.5; if (g::coin(3, 4)) e.a = gg::A_WGS84;
+  r["a"] = J::num(e.a); r["f"] = J::num(e.f); r["wgrid"] = J::integer(g::wpick({2, 1, 1}) == 0 ? 0 : g::irange(1, 3));
   double latX = g::uni(-85, 85), lonX = gg::angle180(), aziX = gg::angle180();
   r["latX"] = J::num(latX); r["lonX"] = J::num(lonX); r["aziX"] = J::num(aziX);
   switch (g::wpick({50, 20, 15, 15})) {
